@@ -31,6 +31,9 @@ import (
 
 const caseTimeout = 20 * time.Second
 
+// cases in which the client did not receive all backend bytes within caseTimeout
+var shortReads int
+
 // ---------- byte stream tokens (shared with the Lean driver) ----------
 
 type token struct {
@@ -309,12 +312,17 @@ func runCaseOnce(run *hx.Run, l *listener, cs caseSpec) bool {
 	}
 	hang := false
 	if !cs.closes && want > 0 {
-		// keep the connection open until the backend's bytes arrived (or the proxy gave up)
+		// keep the connection open until the backend's bytes arrived (or the proxy gave up); if they do not arrive the
+		// case goes on with what was received (after a few such cases the wait is cut short: the run has failed anyway)
+		wait := caseTimeout
+		if shortReads >= 3 {
+			wait = 300 * time.Millisecond
+		}
 		select {
 		case <-gotAll:
 		case <-done:
-		case <-time.After(caseTimeout):
-			hang = true
+		case <-time.After(wait):
+			shortReads++
 		}
 	}
 	c.Close()
@@ -573,7 +581,7 @@ func main() {
 	}
 
 	// ---- generated ----
-	n := run.Scale(700, 5000)
+	n := run.Scale(700, 3000)
 	for i := 0; i < n; i++ {
 		var a string
 		switch r.Intn(4) {
@@ -666,7 +674,7 @@ func main() {
 	}
 
 	// ---- hostile / truncated streams: the client closes after writing ----
-	m := run.Scale(150, 1200)
+	m := run.Scale(150, 800)
 	for i := 0; i < m; i++ {
 		a := unq(hx.Pick(r, addrTable))
 		h := plainHS(a, 765, 25565, 2)
